@@ -227,6 +227,9 @@ type c19Exclude struct {
 	// Pre: 0 = the job stands alone, n = job n of c19PreJobs is written before it (the verdicts of
 	// one job do not depend on the matrices of other jobs)
 	Pre int `json:"pre,omitempty"`
+	// ExcMixed: 0 = the exclude list holds the one literal entry; 1 / 2 = an entry given by an
+	// expression stands before / after it (that entry is never reported, the literal one is judged as usual)
+	ExcMixed int `json:"exc_mixed,omitempty"`
 }
 
 // c19PreJobs: jobs written before the job under test. Each is clean on its own and uses the key
@@ -284,7 +287,14 @@ func (c *c19Exclude) render() (src string, desc string) {
 	if c.ExcExpr {
 		b.WriteString("        exclude:\n          - ${{ fromJSON(vars.EXC) }}\n")
 	} else {
-		b.WriteString("        exclude:\n          - {" + c.excKey(c.ExcKey) + ": " + c.ExcVal.yaml() + "}\n")
+		b.WriteString("        exclude:\n")
+		if c.ExcMixed == 1 {
+			b.WriteString("          - ${{ fromJSON(vars.EXC) }}\n")
+		}
+		b.WriteString("          - {" + c.excKey(c.ExcKey) + ": " + c.ExcVal.yaml() + "}\n")
+		if c.ExcMixed == 2 {
+			b.WriteString("          - ${{ fromJSON(vars.EXC) }}\n")
+		}
 	}
 	b.WriteString(c19Tail)
 	src = b.String()
@@ -332,7 +342,7 @@ func (c *c19Exclude) reference() string {
 }
 
 func c19ExcludeCase(r *vReport, c *c19Exclude, lint func(string) vLintResult) {
-	if c.KeyCase == 0 && c.Pre == 0 && vReplayInput() == nil {
+	if c.KeyCase == 0 && c.Pre == 0 && c.ExcMixed == 0 && vReplayInput() == nil {
 		// the same case with the keys in other letter cases (all four combinations)
 		for kc := 1; kc <= 3; kc++ {
 			c2 := *c
@@ -344,6 +354,14 @@ func c19ExcludeCase(r *vReport, c *c19Exclude, lint func(string) vLintResult) {
 			c2 := *c
 			c2.Pre = pre
 			c19ExcludeCase(r, &c2, lint)
+		}
+		// ... and with an expression entry before / after the literal exclude entry
+		if !c.ExcExpr && c.ExcMixed == 0 {
+			for mx := 1; mx <= 2; mx++ {
+				c2 := *c
+				c2.ExcMixed = mx
+				c19ExcludeCase(r, &c2, lint)
+			}
 		}
 	}
 	src, desc := c.render()
@@ -391,6 +409,9 @@ func c19ExcludeCase(r *vReport, c *c19Exclude, lint func(string) vLintResult) {
 		if c.Pre > 0 {
 			feat += "+after-another-job"
 		}
+		if c.ExcMixed > 0 {
+			feat += "+next-to-an-expression-entry"
+		}
 		if c.RowExpr {
 			feat += "+row-expr"
 		}
@@ -408,7 +429,7 @@ func c19ExcludeCase(r *vReport, c *c19Exclude, lint func(string) vLintResult) {
 func TestVerifC19(t *testing.T) {
 	r := vNewReport("C19")
 	defer r.Write(t)
-	r.Extra["rule"] = "value algebra V (scalars, sequences, mappings to depth 2, both written member orders): duplicate check on all rows of 2 and 3 values over V; exclude check on rows of <=2 values over V' x {no include, include same key, include-only key; two include entries over 8 values each} x exclude {row key, include-only key, undefined key} x value in V', plus rows / include / include entries / exclude entries given by expressions, and single members replaced by expressions at every depth (8 shapes) in rows, include and exclude values; every exclude case with keys in 4 letter-case combinations and after each of 4 other jobs (whose matrices use the same key names: expression rows, expression include values, other literal values); a sub-slice under every map iteration order (deviation 1). oracle = structural equality / containment by recursion. class = (check, reference verdict); non-trivial = something must be reported"
+	r.Extra["rule"] = "value algebra V (scalars, sequences, mappings to depth 2, both written member orders): duplicate check on all rows of 2 and 3 values over V; exclude check on rows of <=2 values over V' x {no include, include same key, include-only key; two include entries over 8 values each} x exclude {row key, include-only key, undefined key} x value in V', plus rows / include / include entries / exclude entries given by expressions, and single members replaced by expressions at every depth (8 shapes) in rows, include and exclude values; every exclude case with keys in 4 letter-case combinations after each of 4 other jobs, and with an expression entry before / after the literal exclude entry (other jobs' matrices use the same key names: expression rows, expression include values, other literal values); a sub-slice under every map iteration order (deviation 1). oracle = structural equality / containment by recursion. class = (check, reference verdict); non-trivial = something must be reported"
 	r.Extra["assumptions"] = []string{"'built from expressions' covers a whole row / include / entry and, for the exclude check, any single member at any depth (it may be anything); duplicate reports among expression members of one row are not claimed"}
 	lint := func(src string) vLintResult { return vLint(src, nil) }
 	if raw := vReplayInput(); raw != nil {
